@@ -152,10 +152,10 @@ RowsDependent(M) == \A S \in SUBSET (1..Cols(M)) : Cardinality(S) = Rows(M) => D
 FullRowRank(C)   == Rows(C) <= Cols(C) /\ ~RowsDependent(C)
 
 \* stated property 2:  g orthogonal to null(C)  <=>  g in rowspace(C)  <=>  rank [C; g] = rank C = p
-GradInRowSpace(C, g) == Rows(C) + 1 > Cols(C) \/ RowsDependent(Append(C, g))
+GradInRowSpace(C, g) == Rows(C) + 1 > Len(g) \/ RowsDependent(Append(C, g))     \* no constraint row: g = 0
 \* the same, read literally on lattice vectors of the null space
 GradOrthNullLattice(C, g, B) ==
-  \A z \in [1..Cols(C) -> (-B)..B] : MatVec(C, z) = ZeroV(Rows(C)) => Dot(z, g) = 0
+  \A z \in [1..Len(g) -> (-B)..B] : MatVec(C, z) = ZeroV(Rows(C)) => Dot(z, g) = 0
 
 \* minimiser among feasible lattice neighbours x + z, C z = 0, z in {-1,0,1}^n
 ConJ(A, b, p, den) == Norm2(SubV(MatVec(A, p), ScaleV(den, b)))
